@@ -6,7 +6,7 @@ open Proto C23
 /-! Line protocol of the C23 model.
 input : `(forest steps)`
   forest = `(node ...)`, node = `(h)` | `(g)` | `(o)` | `(k coded (acc fs) ...)` | `(l type fsid forest)` | `(d kind forest)`
-  steps  = `((c i) | (p t i) | (r t i0 i1 ...) ...)`  t: 0 ompParallelDo/1 ompDo/2 accLoop/3 generic OMPLoopTrans/4 generic OMPParallelLoopTrans; region 0 omp/1 accpar/2 acckernels
+  steps  = `((c i) | (p t seq gang vector collapse typecheck i) | (r t typecheck loopcheck i0 i1 ...) ...)`  t: 0 ompParallelDo/1 ompDo/2 accLoop/3 generic OMPLoopTrans/4 generic OMPParallelLoopTrans; region 0 omp/1 accpar/2 acckernels
 output: `((a1 a2 ...) gen safe1model forest)` with forest printed with the loop's fsDisc flag (0/1). -/
 
 partial def parseForest (xs : List Sexp) : Forest :=
@@ -36,23 +36,27 @@ partial def showForest : Forest → List String
   | .loop ty fd b nx => s!"(l {ty} {if fd then 1 else 0} ({" ".intercalate (showForest b)}))" :: showForest nx
   | .dir k b nx => s!"(d {k} ({" ".intercalate (showForest b)}))" :: showForest nx
 
+/-- steps: `(c i)` | `(p t seq gang vector collapse typecheck i)` | `(r t typecheck loopcheck i0 i1 ...)` -/
 def parseStep (s : Sexp) : Option Step :=
   match s with
   | .list [.atom "c", i] => i.nat?.map Step.colour
-  | .list [.atom "p", t, i] =>
+  | .list [.atom "p", t, sq, g, v, cl, tc, i] =>
+    let o : LoopOpts := { sequential := sq.nat? == some 1, gang := g.nat? == some 1, vector := v.nat? == some 1,
+                          collapse := cl.nat?.getD 0, typeCheck := tc.nat? == some 1 }
     match t.nat?, i.nat? with
-    | some 0, some i => some (.parLoop .ompParallelDo i)
-    | some 1, some i => some (.parLoop .ompDo i)
-    | some 2, some i => some (.parLoop .accLoop i)
-    | some 3, some i => some (.parLoop .genOmpDo i)
-    | some 4, some i => some (.parLoop .genOmpParallelDo i)
+    | some 0, some i => some (.parLoop .ompParallelDo o i)
+    | some 1, some i => some (.parLoop .ompDo o i)
+    | some 2, some i => some (.parLoop .accLoop o i)
+    | some 3, some i => some (.parLoop .genOmpDo o i)
+    | some 4, some i => some (.parLoop .genOmpParallelDo o i)
     | _, _ => none
-  | .list (.atom "r" :: t :: tg) =>
+  | .list (.atom "r" :: t :: tc :: lc :: tg) =>
     let targets := tg.filterMap Sexp.nat?
+    let o : RegionOpts := { typeCheck := tc.nat? == some 1, loopCheck := lc.nat? == some 1 }
     match t.nat? with
-    | some 0 => some (.region .ompParallel targets)
-    | some 1 => some (.region .accParallel targets)
-    | some 2 => some (.region .accKernels targets)
+    | some 0 => some (.region .ompParallel o targets)
+    | some 1 => some (.region .accParallel o targets)
+    | some 2 => some (.region .accKernels o targets)
     | _ => none
   | _ => none
 
